@@ -425,6 +425,13 @@ func buildLeaves() []*Leaf {
 			}},
 		{Name: "[3]int", Type: reflect.TypeOf([3]int{}), Caps: 0,
 			Gen: func(r *fw.Rand, uniq int) reflect.Value { return rv([3]int{uniq, uniq + 1, uniq + 2}) }},
+		{Name: "[2]duration", Type: reflect.TypeOf([2]time.Duration{}), Caps: 0,
+			Gen: func(r *fw.Rand, uniq int) reflect.Value {
+				if r.Chance(40) {
+					return rv([2]time.Duration{}) // all elements zero
+				}
+				return rv([2]time.Duration{time.Duration(uniq) * time.Millisecond, 0})
+			}},
 		{Name: "[2]string", Type: reflect.TypeOf([2]string{}), Caps: 0,
 			Gen: func(r *fw.Rand, uniq int) reflect.Value { return rv([2]string{GenString(r, uniq), "b"}) }},
 		{Name: "*int", Type: reflect.TypeOf((*int)(nil)), Caps: CapRef,
